@@ -1,6 +1,8 @@
 // h_variant.cpp - C07: Variant against a tagged-tree value model (plain C structs), coercion table re-implemented independently,
 // lazy-copy independence (every variable is compared with its own model after every operation), x == copy_of(x) for every intact copy.
 // mode: hist (swarm random histories over 4..6 Variant variables)
+// Build flavours: the only private state used is the reference count of a payload (state class inline / unique / shared in context keys, clone counters, "non-trivial" rule).
+// With -DVERIF_NO_PRIVATE it is replaced by the harness's own record of payload identities in the model (MV::pid, holdState()); every value oracle is public API in both flavours.
 // typed self-assignment (K_ASSIGN_OWN): v = v.toX() / v = ((const Variant&)v).toX() for X in String/List/Array/Map, on a variable or on a nested element,
 // sole owner and shared: the value last given is the Variant's own value, so value, type and every other variable stay as they are.
 #include "vh.hpp"
@@ -32,10 +34,14 @@ struct Str {
   const char* c() const { return p ? p : ""; }
 };
 
+// pid: the harness's own record of payload identity. Every heap value (string / list / array / map) made from scratch gets a new number, copying a model value
+// (= lazy copy of the Variant) keeps it, a copy-on-write clone gets a new one. It is what the VERIF_NO_PRIVATE flavour derives "shared / unique" from (see holders()).
+static u64 g_pid = 0;
 struct MV {
-  int t; bool b; double d; long long i; unsigned long long u; Str s; Vec<Str> keys; Vec<MV> kids;
-  MV() : t(T_NULL), b(false), d(0), i(0), u(0) {}
-  void reset(int nt) { t = nt; b = false; d = 0; i = 0; u = 0; s.set("", 0); keys.clear(); kids.clear(); }
+  int t; bool b; double d; long long i; unsigned long long u; Str s; Vec<Str> keys; Vec<MV> kids; u64 pid;
+  MV() : t(T_NULL), b(false), d(0), i(0), u(0), pid(0) {}
+  void reset(int nt) { t = nt; b = false; d = 0; i = 0; u = 0; s.set("", 0); keys.clear(); kids.clear(); pid = nt >= T_MAP ? ++g_pid : 0; }
+  void newPayload() { if (t >= T_MAP) pid = ++g_pid; }
 };
 static size_t nodes(const MV& m) { size_t c = 1; for (size_t k = 0; k < m.kids.n; ++k) c += nodes(m.kids[k]); return c; }
 static bool hasArray(const MV& m) { if (m.t == T_ARRAY) return true; for (size_t k = 0; k < m.kids.n; ++k) if (hasArray(m.kids[k])) return true; return false; }
@@ -347,8 +353,36 @@ static void checkAll(int target) {
   }
 }
 
+// ------------------------------------------------------------------------------------------------ who holds a payload (state class "inline / unique / shared")
+// normal flavour: the reference count of the payload (private). VERIF_NO_PRIVATE flavour: the harness's own record - the number of Variant objects that got this payload by
+// copying: variables, the temporary of the running operation, and elements of DISTINCT live container payloads (a payload shared by two variables exists once).
+// No verdict depends on it: it names the state class in context keys / evidence and feeds the "non-trivial" rule and the clone counters.
+static const MV* g_tmpHolder = 0;     // model of a temporary Variant that is alive during the operation (lazy copy of a variable)
+static Vec<u64> g_seenPayloads;
+static void countHolders(const MV& m, u64 pid, long& n) {
+  if (m.pid == pid) ++n;
+  if (!isContainer(m.t)) return;
+  for (size_t k = 0; k < g_seenPayloads.n; ++k) if (g_seenPayloads[k] == m.pid) return;
+  g_seenPayloads.push(m.pid);
+  for (size_t k = 0; k < m.kids.n; ++k) countHolders(m.kids[k], pid, n);
+}
+static long g_holdAgree = 0, g_holdDiffer = 0;
+// 0 = no payload (null / scalar stored in the object), 1 = sole holder, 2 = shared
+static int holdState(const Variant& v, const MV& m) {
+  int est = 0;
+  if (isHeap(m.t)) { g_seenPayloads.clear(); long n = 0; for (int i = 0; i < NV; ++i) if (M[i]) countHolders(*M[i], m.pid, n); if (g_tmpHolder) countHolders(*g_tmpHolder, m.pid, n); est = n > 1 ? 2 : 1; }
+#ifndef VERIF_NO_PRIVATE
+  int real = v.data->ref == 0 ? 0 : v.data->ref > 1 ? 2 : 1;
+  if (real == est) ++g_holdAgree; else ++g_holdDiffer;     // how good the fallback flavour's record is (evidence only)
+  return real;
+#else
+  (void)v; return est;
+#endif
+}
+static const char* holdClass(const Variant& v, const MV& m) { static const char* const n[] = { "inline", "unique", "shared" }; return n[holdState(v, m)]; }
+static bool isShared(const Variant& v, const MV& m) { return holdState(v, m) == 2; }
+
 // ------------------------------------------------------------------------------------------------ typed assignment / construction
-static const char* holdClass(const Variant& v) { return v.data->ref == 0 ? "inline" : v.data->ref > 1 ? "shared" : "unique"; }
 static long g_sharedBefore = 0;
 
 static void assignTyped(Variant& v, const MV& nv) {
@@ -389,8 +423,9 @@ static void cell(const char* acc, const MV& m, const char* cow, int depth) { cha
 static void mutate(Variant& v, MV& m, Rng& r, int depth, bool& changed, const Variant& val, const MV& valm) {
   static const int heapT[] = { T_STRING, T_LIST, T_ARRAY, T_MAP };
   int want = (isHeap(m.t) && r.chance(9, 10)) ? m.t : heapT[r.below(4)];
-  const char* cow = m.t != want ? "convert" : v.data->ref > 1 ? "shared-clone" : "unique-in-place";
-  if (m.t == want && v.data->ref > 1) { ++g_cowClones; if (depth) ++g_nestedClones; }
+  bool sharedNow = m.t == want && isShared(v, m);
+  const char* cow = m.t != want ? "convert" : sharedNow ? "shared-clone" : "unique-in-place";
+  if (sharedNow) { ++g_cowClones; if (depth) ++g_nestedClones; m.newPayload(); }   // the mutable accessor below gives this holder a payload of its own (elements: lazy copies, same identities)
   bool descend = depth < 2 && m.t == want && isContainer(want) && m.kids.n && r.chance(1, 2);
   size_t at = m.kids.n ? (size_t)r.below(m.kids.n) : 0;
   for (int k = 0; k < depth; ++k) hist.add("  ");
@@ -496,7 +531,7 @@ static const Variant* pickDescendant(const Variant& v, const MV& m, Rng& r, cons
 static Variant* descendMutable(Variant& v, MV& m, Rng& r, MV*& dm, Text& path, int depth = 0) {
   if (!isContainer(m.t) || !m.kids.n) return 0;
   size_t at = (size_t)r.below(m.kids.n); Variant* c = 0;
-  if (v.data->ref > 1) { ++g_cowClones; if (depth) ++g_nestedClones; }
+  if (isShared(v, m)) { ++g_cowClones; if (depth) ++g_nestedClones; m.newPayload(); }
   if (m.t == T_LIST) { List<Variant>& l = v.toList(); List<Variant>::Iterator it = l.begin(); for (size_t k = 0; k < at; ++k) ++it; c = &*it; path.addf(".toList()[%lu]", (unsigned long)at); }
   else if (m.t == T_ARRAY) { Array<Variant>& a = v.toArray(); Variant* p = a; c = &p[at]; path.addf(".toArray()[%lu]", (unsigned long)at); }
   else { HashMap<String, Variant>& h = v.toMap(); HashMap<String, Variant>::Iterator it = h.find(String(m.keys[at].c(), m.keys[at].n)); if (it == h.end()) fail(key("value"), "map entry \"%s\" is not found by its key", m.keys[at].c()); c = &*it; path.addf(".toMap(){%s}", m.keys[at].c()); }
@@ -511,15 +546,16 @@ static Variant* descendMutable(Variant& v, MV& m, Rng& r, MV*& dm, Text& path, i
 static long g_ownInPlace[NTYPES];
 static bool assignOwnValue(Variant& e, MV& em, int want, bool mut, bool nested, const char* lhs) {
   const Variant& ce = e;
-  const char* hc = holdClass(e); bool same = em.t == want;
+  int hs = holdState(e, em); const char* hc = hs == 0 ? "inline" : hs == 1 ? "unique" : "shared"; bool same = em.t == want;
   static const char* acc[] = { "?", "?", "?", "?", "?", "?", "?", "Map", "List", "Array", "String" };
   if (same) setctxf("Variant.operator=(%s)/arg=own-value-%s/%s%s", tname[want], mut ? "mutable" : "const", hc, nested ? "/nested" : "");
   else setctxf("Variant.operator=(%s)/arg=own-view-%s/from=%s/%s%s", tname[want], mut ? "mutable" : "const", tname[em.t], hc, nested ? "/nested" : "");
   if (mut) hist.addf("%s = %s.to%s()   [%s; receiver %s, %s]\n", lhs, lhs, acc[want], same ? "own value" : "own view as another type", tname[em.t], hc);
   else hist.addf("%s = ((const Variant&)%s).to%s()   [%s; receiver %s, %s]\n", lhs, lhs, acc[want], same ? "own value" : "own view as another type", tname[em.t], hc);
   { char t[96]; snprintf(t, sizeof t, "%s<-%s/%s/%s/%s", tname[em.t], tname[want], mut ? "mutable" : "const", hc, nested ? "nested" : "top"); setItem("own_value_cells", t); }
-  if (same && e.data->ref > 1 && mut) { ++g_cowClones; if (nested) ++g_nestedClones; }
-  if (same && (mut || e.data->ref == 1)) ++g_ownInPlace[want];    // the overload's in-place branch runs with its argument aliasing its destination
+  if (same && hs == 2 && mut) { ++g_cowClones; if (nested) ++g_nestedClones; }
+  if (same && (mut || hs == 1)) ++g_ownInPlace[want];    // the overload's in-place branch runs with its argument aliasing its destination
+  if (same && hs == 2) em.newPayload();                  // shared: the accessor clones (mutable) or the overload builds a new payload from the shared one (const)
   switch (want) {
   case T_STRING: if (mut) e = e.toString(); else e = ce.toString(); break;
   case T_LIST: if (mut) e = e.toList(); else e = ce.toList(); break;
@@ -564,21 +600,21 @@ static void historyCase(long idx) {
         setctxf("Variant.Variant(%s)", tname[nv.t]); hist.addf("v%d := Variant(%s)\n", i, d.c()); { char t[64]; snprintf(t, sizeof t, "construct(%s)", tname[nv.t]); setItem("op_type_cells", t); }
         Variant* n = constructTyped(nv); setctx("Variant.~Variant"); delete V[i]; V[i] = n; setctxf("Variant.Variant(%s)", tname[nv.t]); cnt("op_construct");
       } else {
-        const char* hc = holdClass(v);
+        const char* hc = holdClass(v, m);
         setctxf("Variant.operator=(%s)/from=%s/%s", tname[nv.t], tname[m.t], hc); hist.addf("v%d = %s   [was %s, %s]\n", i, d.c(), tname[m.t], hc);
         { char t[96]; snprintf(t, sizeof t, "assign(%s)/from=%s/%s", tname[nv.t], tname[m.t], hc); setItem("op_type_cells", t); }
         assignTyped(v, nv); cnt("op_assign_typed");
       }
       *M[i] = nv; bump(i); break; }
     case K_COPYCTOR: {
-      setctxf("Variant.Variant(Variant)/from=%s/%s", tname[M[j]->t], holdClass(*V[j])); hist.addf("v%d := Variant(v%d)   [%s]\n", i, j, tname[M[j]->t]);
+      setctxf("Variant.Variant(Variant)/from=%s/%s", tname[M[j]->t], holdClass(*V[j], *M[j])); hist.addf("v%d := Variant(v%d)   [%s]\n", i, j, tname[M[j]->t]);
       { char t[64]; snprintf(t, sizeof t, "copy-construct(%s)", tname[M[j]->t]); setItem("op_type_cells", t); }
       Variant* n = new Variant(*V[j]); if (isHeap(M[j]->t)) ++lazyCopies;
       setctx("Variant.~Variant"); delete V[i]; V[i] = n; setctxf("Variant.Variant(Variant)/from=%s", tname[M[j]->t]);
       if (i != j) { MV t(*M[j]); *M[i] = t; bump(i); noteCopy(i, j); }
       cnt("op_copy_construct"); break; }
     case K_ASSIGNVAR: {
-      const char* hc = holdClass(v);
+      const char* hc = holdClass(v, m);
       setctxf("Variant.operator=(Variant)/%s/from=%s/%s/to=%s", i == j ? "arg=self" : "other", tname[m.t], hc, tname[M[j]->t]); hist.addf("v%d = v%d   [%s <- %s]\n", i, j, tname[m.t], tname[M[j]->t]);
       { char t[96]; snprintf(t, sizeof t, "assign-variant/%s/from=%s/%s/to=%s", i == j ? "self" : "other", tname[m.t], hc, tname[M[j]->t]); setItem("op_type_cells", t); }
       v = *V[j]; if (isHeap(M[j]->t) && i != j) ++lazyCopies;
@@ -590,7 +626,7 @@ static void historyCase(long idx) {
       if (i != j) { MV t(*M[i]); *M[i] = *M[j]; *M[j] = t; bump(i); bump(j); }
       cnt("op_swap"); break; }
     case K_CLEAR: {
-      setctxf("Variant.clear/from=%s/%s", tname[m.t], holdClass(v)); hist.addf("v%d.clear()   [%s %s]\n", i, tname[m.t], holdClass(v));
+      { const char* hc = holdClass(v, m); setctxf("Variant.clear/from=%s/%s", tname[m.t], hc); hist.addf("v%d.clear()   [%s %s]\n", i, tname[m.t], hc); }
       v.clear(); m.reset(T_NULL); bump(i); cnt("op_clear"); break; }
     case K_MUTATE: case K_MUTATE2: {
       // the value to store is built first: a fresh one or a lazy copy of a variable (possibly of the receiver itself)
@@ -600,7 +636,9 @@ static void historyCase(long idx) {
       { Text d; describe(valm, d); if (fromVar) hist.addf("value := Variant(v%d) %s\n", src, d.c()); else hist.addf("value := %s\n", d.c()); }
       hist.addf("v%d.", i);
       bool changed = false; long before = g_cowClones;
+      g_tmpHolder = fromVar ? &valm : 0;
       mutate(v, m, r, 0, changed, val, valm);
+      g_tmpHolder = 0;
       if (g_cowClones > before) ++sharedMut;
       if (changed) bump(i);
       snprintf(mutCtx, sizeof mutCtx, "%s", (const char*)ctx);
@@ -609,7 +647,7 @@ static void historyCase(long idx) {
     case K_ASSIGN_ELEM: {
       int src = r.chance(1, 2) ? i : j; if (src == i && noOwnElem) { src = j; if (src == i) break; }
       const MV* dm = 0; Text path; const Variant* d = pickDescendant(*V[src], *M[src], r, dm, path); if (!d) break;
-      const char* hc = holdClass(v);
+      const char* hc = holdClass(v, m);
       setctxf("Variant.operator=(Variant)/%s/%s", src == i ? "arg=own-element" : "arg=element-of-other", isHeap(dm->t) ? "heap-element" : "inline-element");
       hist.addf("v%d = v%d%s   [%s <- %s, receiver %s]\n", i, src, path.c(), tname[m.t], tname[dm->t], hc);
       { char t[96]; snprintf(t, sizeof t, "assign-element/%s/%s", src == i ? "own" : "other", tname[dm->t]); setItem("op_type_cells", t); }
@@ -618,11 +656,11 @@ static void historyCase(long idx) {
       *M[i] = t; bump(i); cnt("op_assign_element"); if (src == i) cnt("op_assign_own_element"); break; }
     case K_ASSIGN_VIEW: {
       if (i == j || !isContainer(M[j]->t)) break;     // the receiver's own view: K_ASSIGN_OWN
-      const char* hc = holdClass(v);
+      const char* hc = holdClass(v, m);
       setctxf("Variant.operator=(%s)/arg=view-of-other/from=%s/%s", tname[M[j]->t], tname[m.t], hc); hist.addf("v%d = ((const Variant&)v%d).to%s()   [was %s, %s]\n", i, j, M[j]->t == T_LIST ? "List" : M[j]->t == T_ARRAY ? "Array" : "Map", tname[m.t], hc);
       const Variant& cv = *V[j];
       if (M[j]->t == T_LIST) v = cv.toList(); else if (M[j]->t == T_ARRAY) v = cv.toArray(); else v = cv.toMap();
-      MV t(*M[j]); *M[i] = t; bump(i); cnt("op_assign_view"); break; }
+      MV t(*M[j]); *M[i] = t; M[i]->newPayload(); bump(i); cnt("op_assign_view"); break; }   // a container built from the view: new payload, elements are lazy copies
     case K_ASSIGN_OWN: {
       // typed overload given the receiver's own value: on the variable itself or on an element reached through the mutable accessors
       Variant* e = &v; MV* em = &m; Text lhs; lhs.addf("v%d", i); bool nested = false;
@@ -691,6 +729,7 @@ int main(int argc, char** argv) {
   cnt("native_values_compared", g_cmpNative); cnt("coercions_compared", g_cmpCoerce); cnt("coercions_open_skipped", g_coerceSkipped);
   cnt("equalities_compared", g_eqChecked); cnt("equalities_open_skipped", g_eqSkipped); cnt("copy_equalities_checked", g_copyEq);
   cnt("cow_clones_of_shared_payload", g_cowClones); cnt("nested_cow_clones", g_nestedClones); cnt("mutations_through_accessor", g_mutations);
+  if (g_holdAgree || g_holdDiffer) { cnt("holder_record_agrees_with_refcount", g_holdAgree); cnt("holder_record_differs_from_refcount", g_holdDiffer); }
   cnt("own_value_inplace_string", g_ownInPlace[T_STRING]); cnt("own_value_inplace_list", g_ownInPlace[T_LIST]); cnt("own_value_inplace_array", g_ownInPlace[T_ARRAY]); cnt("own_value_inplace_map", g_ownInPlace[T_MAP]);
   (void)g_sharedBefore;
   leakCheck("Variant/leak");
